@@ -25,6 +25,7 @@ EXPLANATION = (
     "values flow only to console messages and to the creation_date field, which templates print only "
     "under print_creation_date. Byte-identity of two runs is not decided."
     ' R4 (shared with C13.R5): graph node/edge emission iterates sorted views. R5: serial and parallel graph generation produce the same files. R6: page-name numbering (the ~N suffix) does not depend on set iteration order - every declared entity, and every entity copied during correlation, is named in list order before any sort over sets of entities.'
+    " Added after waves 6/7 - node identity is not coarser than the displayed name (no set representative chosen by hash order). Graph-emission clauses are stated on the hop summary (element provenance), not on loop shapes."
 )
 ASSUMPTIONS = ["FortranBase.__hash__ is identity and BaseNode.__hash__ is hash(ident): set order varies between runs",
                "dict iteration order is insertion order (Python >= 3.7)"]
